@@ -28,6 +28,10 @@ C = {
          "exhaustive enumeration of bounded pattern x value spaces on the implementation, table-driven reference renderer"),
  "C12": ("15 288 patterns generated from the unambiguous-field grammar (32 date parts x 24 time parts x 11 zone symbols x separators/quoted text) x 2 928 values (all eras, months >= 10, hours 0/11/12/13/23, noon/midnight, offsets with and without seconds): format -> parse -> format must reproduce the string; full patterns must recover instant and offset.",
          "exhaustive enumeration of a generated pattern grammar x value set on the implementation, round-trip oracle"),
+ "C13": ("Write side: every 11th day (every day thorough) of years 1..=9999 x two times x {Z,+05:30} x 5 precisions and boundary instants x all 2 879 whole-minute offsets x 5 precisions - output equals the reference rendering, is accepted by an ABNF recogniser and reads back to the truncated instant and offset. Read side: the bounded ABNF product dates x times x fractions of every length 1..=40 x 7 offset spellings, and 128 single-field mutations to out-of-range values that must be rejected.",
+         "exhaustive enumeration of bounded ABNF string products and value x offset x precision spaces on the implementation, recogniser/reference oracle"),
+ "C14": ("Exhaustive bounded string families through every text entry point in a supervised child process: every string of length <= 4 (5 thorough) over a 16-symbol alphabet incl. 2- and 3-byte characters and NUL for each of 19 symbols x 6 widths; every pattern of length <= 4 over 24 pattern characters for parse and format; every 2-piece composite pattern x every string of length <= 3 and every truncation / single substitution of the formatted text; every truncation, single and double substitution of five fixed-format templates; range-end texts with zones; every cron field string of length <= 4 (5). Outcome class must be Ok/Err/String and Ok values valid; an abort or hang is traced to the case.",
+         "exhaustive fault / hostile-input enumeration over bounded string families on the implementation (outcome-class oracle, subprocess supervision)"),
  "C15": ("Full cross products of boundary alphabets for every fallible constructor and all 10 setters, complete 2^32 sweeps of Time::from_seconds and Offset::from_seconds; Ok iff reference-valid and reads back its arguments, Err is OutOfRange, and a stated range is checked against the set of values the real function accepts for the named parameter.",
          "exhaustive enumeration of boundary-alphabet cross products and complete u32/i32 argument axes on the implementation, validity oracle"),
 }
